@@ -6,7 +6,7 @@
                        startxref, %%EOF), object bodies opaque.
    Model.check_file  : independent strict, non-repairing checker of a byte string. *)
 From Coq Require Import NArith List Bool.
-From PV Require Import C18.Model C18.ProofsBase C18.ProofsXref C18.ProofsLayout.
+From PV Require Import C18.Model C18.ProofsBase C18.ProofsXref C18.ProofsLayout C18.ProofsXStream.
 Import ListNotations.
 Open Scope N_scope.
 
@@ -86,6 +86,29 @@ Theorem C18_int64ToBuf_roundtrip : forall (i : N) (w : nat), i < 2 ^ 64 ->
 Proof. exact int64ToBuf_roundtrip. Qed.
 Print Assumptions C18_int64ToBuf_roundtrip.
 
+(* (8b) Cross-reference stream column widths.  writeXRefStream declares /W [1 w 2] with
+   w = byte length of max(/Size, offset of the xref stream) (Model.w2_width, transcribed).  If every row's
+   type is a byte, its second field is at most that maximum (offsets <= the xref stream's offset;
+   next-free and object-stream numbers < /Size) and its third field is below 65536, then the stream
+   content is exactly rows x (1+w+2) bytes and the strict decoder (exact widths, exact count, nothing
+   left over) returns exactly the rows written. *)
+Theorem C18_xref_stream_rows_exact : forall (size offset start : N) (rows : list xrow),
+  (if size <? offset then offset else size) < 2 ^ 64 ->
+  Forall (fun r => x_typ r < 256 /\ x_a r <= (if size <? offset then offset else size) /\ x_b r < 65536) rows ->
+  length (xref_stream_content size offset rows) = (length rows * (1 + w2_width size offset + 2))%nat /\
+  decode_index 1 (w2_width size offset) 2 [(start, lenN rows)] (xref_stream_content size offset rows)
+    = Some (number start rows).
+Proof. exact xref_stream_rows_exact. Qed.
+Print Assumptions C18_xref_stream_rows_exact.
+
+(* (8c) The width is a REQUIREMENT: a field value that does not fit the declared width is written wider
+   than declared (int64ToBuf never truncates), which misaligns every later row.  So a width derived from
+   the offset alone is wrong as soon as an object number exceeds it. *)
+Theorem C18_int64ToBuf_overflow : forall (v : N) (w : nat),
+  v < 2 ^ 64 -> 256 ^ N.of_nat w <= v -> (w < length (int64ToBuf v w))%nat.
+Proof. exact int64ToBuf_overflow. Qed.
+Print Assumptions C18_int64ToBuf_overflow.
+
 (* (9) REFUTED at full strength: the writer copies xRefTable.Size verbatim.  A table whose highest
    numbered object is neither written nor free (what pdfcpu produces when the source's last object
    was its cross-reference stream: objects 0..10 present, Size 12) yields a file that the strict
@@ -130,6 +153,12 @@ Example C18_nonvacuous :
   check_file (layout (sample CRLF)) = true /\
   check_file (0 :: layout (sample CRLF)) = false /\
   check_stage (firstn 30 (layout (sample LF)) ++ [32] ++ skipn 30 (layout (sample LF))) = 3.
+Proof. vm_compute. repeat split; congruence. Qed.
+
+Example C18_width_nonvacuous :
+  w2_width 70001 900 = 3%nat /\ w2_width 8 900 = 2%nat /\ w2_width 8 70000 = 3%nat /\
+  length (row_bytes (w2_width 70001 900) (mk_xrow 2 70000 3)) = 6%nat /\
+  length (row_bytes 2 (mk_xrow 2 70000 3)) = 6%nat (* one byte more than the 5 that /W [1 2 2] declares *).
 Proof. vm_compute. repeat split; congruence. Qed.
 
 Example C18_sample_wf : forall e, wf (sample e).
